@@ -19,14 +19,14 @@ const POLICY_SETS_PER_CASE: u64 = 25;
 pub fn plan(tier: &str) -> u64 {
     match tier {
         // policy cases (25 sets each) + table cases + tables read with a policy of another name
-        "quick" => 80 + 200 + n_foreign(tier),
+        "quick" => 160 + 600 + n_foreign(tier),
         _ => 4000 + 5000 + n_foreign(tier),
     }
 }
 
 fn n_table_cases(tier: &str) -> u64 {
     if tier == "quick" {
-        200
+        600
     } else {
         5000
     }
@@ -34,7 +34,7 @@ fn n_table_cases(tier: &str) -> u64 {
 
 fn n_foreign(tier: &str) -> u64 {
     if tier == "quick" {
-        48
+        96
     } else {
         600
     }
@@ -82,7 +82,7 @@ impl FilterPolicy for HashListPolicy {
 
 fn n_policy_cases(tier: &str) -> u64 {
     if tier == "quick" {
-        80
+        160
     } else {
         4000
     }
